@@ -1,3 +1,4 @@
+use smallvec::SmallVec;
 use std::ops::Range;
 
 use super::{
@@ -65,71 +66,123 @@ pub trait RiRefImpl {
 	}
 
 	/// Get this IRI reference relatively to the given one.
-	#[inline]
+	///
+	/// The result is such that resolving it against `other` gives back an
+	/// IRI equal to `self`.
 	fn relative_to(&self, other: &Self) -> Self::RiRefBuf {
+		let full =
+			|| unsafe { <Self::RiRefBuf as RiRefBufImpl>::new_unchecked(self.as_bytes().to_vec()) };
+
+		if self.scheme_opt() != other.scheme_opt() {
+			return full();
+		}
+
 		let mut result = Self::RiRefBuf::default();
-
-		match (self.scheme_opt(), other.scheme_opt()) {
-			(Some(a), Some(b)) if a == b => (),
-			(Some(_), None) => (),
-			(None, Some(_)) => (),
-			(None, None) => (),
-			_ => {
-				return unsafe {
-					<Self::RiRefBuf as RiRefBufImpl>::new_unchecked(self.as_bytes().to_vec())
-				}
-			}
-		}
-
-		match (self.authority(), other.authority()) {
-			(Some(a), Some(b)) if a == b => (),
-			(Some(_), None) => (),
-			(None, Some(_)) => (),
-			(None, None) => (),
-			_ => {
-				return unsafe {
-					<Self::RiRefBuf as RiRefBufImpl>::new_unchecked(self.as_bytes().to_vec())
-				}
-			}
-		}
-
-		let mut self_segments = self.path().normalized_segments().peekable();
-		let mut base_segments = other
-			.path()
-			.parent_or_empty()
-			.normalized_segments()
-			.peekable();
-
-		if self.path().is_absolute() == other.path().is_absolute() {
-			loop {
-				match (self_segments.peek(), base_segments.peek()) {
-					(Some(a), Some(b)) if a.as_pct_str().bytes().eq(b.as_pct_str().bytes()) => {
-						base_segments.next();
-						self_segments.next();
-					}
-					_ => break,
-				}
-			}
-		}
-
-		for _segment in base_segments {
-			result
-				.path_mut()
-				.push(<<Self::Path as PathImpl>::Segment as SegmentImpl>::PARENT);
-		}
-
-		for segment in self_segments {
-			result.path_mut().push(segment)
-		}
-
-		if (self.query().is_some() || self.fragment().is_some())
-			&& Some(result.path().as_bytes()) == other.path().last().map(|s| s.as_bytes())
-		{
-			result.path_mut().clear()
-		}
-
 		result.set_query(self.query());
 		result.set_fragment(self.fragment());
+
+		let authority = self.authority();
+		let same_authority = match (authority, other.authority()) {
+			(Some(a), Some(b)) => a == b,
+			(None, None) => true,
+			_ => false,
+		};
+
+		if !same_authority {
+			return match authority {
+				Some(_) => {
+					// network-path reference.
+					result.set_authority(authority);
+					result.set_path(self.path());
+					result
+				}
+				None => full(),
+			};
+		}
+
+		let self_path = self.path();
+		let other_path = other.path();
+
+		if self_path.as_bytes().is_empty() {
+			// An empty path can only be obtained from an empty base path, or
+			// by a reference carrying an authority or a scheme.
+			return if other_path.as_bytes().is_empty()
+				&& (self.query().is_some() || other.query().is_none())
+			{
+				result
+			} else if authority.is_some() {
+				result.set_authority(authority);
+				result
+			} else {
+				full()
+			};
+		}
+
+		if self_path.is_relative() {
+			return full();
+		}
+
+		// An empty base path next to an authority stands for the root.
+		if other_path.is_relative() && !(other_path.is_empty() && authority.is_some()) {
+			// absolute-path reference.
+			result.set_path(self_path);
+			return result;
+		}
+
+		let self_segments: SmallVec<[&<Self::Path as PathImpl>::Segment; 16]> =
+			self_path.normalized_segments().collect();
+		let other_segments: SmallVec<[&<Self::Path as PathImpl>::Segment; 16]> =
+			other_path.normalized_segments().collect();
+
+		let segment_eq = |a: &&<Self::Path as PathImpl>::Segment,
+		                  b: &&<Self::Path as PathImpl>::Segment| {
+			a.as_pct_str().bytes().eq(b.as_pct_str().bytes())
+		};
+
+		let same_path = other_path.is_absolute()
+			&& self_segments.len() == other_segments.len()
+			&& self_segments
+				.iter()
+				.zip(&other_segments)
+				.all(|(a, b)| segment_eq(a, b));
+
+		if same_path
+			&& (self.query().is_some() || self.fragment().is_some())
+			&& (self.query().is_some() || other.query().is_none())
+		{
+			// same-document reference.
+			return result;
+		}
+
+		// The last segment is the "file name": only the directories are
+		// compared. The base directory is the one used by the resolution
+		// algorithm: the base path without its last segment, whatever it is.
+		let self_directory = &self_segments[..self_segments.len().saturating_sub(1)];
+		let other_directory: SmallVec<[&<Self::Path as PathImpl>::Segment; 16]> = other_path
+			.parent_or_empty()
+			.normalized_segments()
+			.collect();
+		let common = self_directory
+			.iter()
+			.zip(&other_directory)
+			.take_while(|(a, b)| segment_eq(a, b))
+			.count();
+
+		let mut path = result.path_mut();
+
+		for _ in common..other_directory.len() {
+			path.push(<<Self::Path as PathImpl>::Segment as SegmentImpl>::PARENT);
+		}
+
+		for segment in &self_segments[common..] {
+			path.push(segment)
+		}
+
+		if path.is_empty() {
+			path.push(unsafe {
+				<<Self::Path as PathImpl>::Segment as SegmentImpl>::new_unchecked(b".")
+			})
+		}
 
 		result
 	}
